@@ -49,6 +49,20 @@ type NodeSim struct {
 	LastChange time.Duration // last instant the scenario changed a chain or fired a fault
 	OnHeaders func(h *client.Headers)
 	OnInSync  func()
+
+	// ForkEvents: best-chain changes of the trusted peer that abandoned blocks (time, fork height)
+	ForkEvents []ForkEvent
+
+	stopRequested   bool
+	stopReturnedSeq uint64
+	// firstLocator: per trusted connection, "" if the first header request started at the node's
+	// stored tip, else a description (only recorded when the map is non-nil)
+	firstLocator map[*PeerConn]string
+}
+
+type ForkEvent struct {
+	At         time.Duration
+	ForkHeight int
 }
 
 type DialEvent struct {
@@ -183,6 +197,20 @@ func (ns *NodeSim) noteSent(ev WireEvent) {
 
 func (ns *NodeSim) noteReceived(ev WireEvent) {
 	ns.Received = append(ns.Received, ev)
+	if gh, ok := ev.Msg.(*wire.MsgGetHeaders); ok && ns.firstLocator != nil && ev.Conn.P.Trusted && ns.Node != nil {
+		if _, seen := ns.firstLocator[ev.Conn]; !seen {
+			msg := ""
+			simrt.NoPreempt(func() {
+				tip := ns.Node.VerifBlocks().LastHash()
+				if len(gh.BlockLocatorHashes) == 0 {
+					msg = "empty locator"
+				} else if *gh.BlockLocatorHashes[0] != *tip {
+					msg = fmt.Sprintf("locator starts at %s, stored tip is %s (height %d)", shortHash(*gh.BlockLocatorHashes[0]), shortHash(*tip), ns.Node.VerifBlocks().LastHeight())
+				}
+			})
+			ns.firstLocator[ev.Conn] = msg
+		}
+	}
 	simrt.Eventf("node>peer", "%s %s", ev.Conn, msgBrief(ev.Msg))
 }
 
